@@ -44,12 +44,9 @@ def run(ctx):
         rows = []
         seen_chars = set()
         for p in ret_paths(paths):
-            conds = {}
-            for c in p.conds():
-                if is_call(c.term, "str>::contains") and strip_refs(call_args(c.term)[0]) == ("param", 1):
-                    ch = const_char(call_args(c.term)[1]) or const_str(call_args(c.term)[1])
-                    conds[ch] = (c.fact == ("eq", True))
-                    seen_chars.add(ch)
+            conds = contains_facts(ctx, p)      # (set of characters, truth): the pattern contains at least one of them / none of them
+            for chs, _ in conds:
+                seen_chars.update(chs)
             r = p.end[1]
             ok = unwrap_ok(r)
             if ok is not None:
@@ -74,7 +71,7 @@ def run(ctx):
             a = dict(zip(CHARS, bits))
             n += 1
             want = want_type(a)
-            outs = [(o, p) for (conds, o, p) in rows if all(a.get(k) == v for k, v in conds.items() if k in a)]
+            outs = [(o, p) for (conds, o, p) in rows if all(any(a.get(k, False) for k in ks) == v for ks, v in conds)]
             for (o, p) in outs:
                 kind, name, flds = o
                 good = (kind == "Ok" and name == want) or (kind == "Err" and name == want and want in ("Alternate", "Dewey", "Glob"))
